@@ -520,6 +520,7 @@ func (e *EtcdOp) getCollectionNameByID(ctx context.Context, collectionID int64) 
 		if len(resp.Kvs) == 0 {
 			continue
 		}
+		break
 	}
 	if resp == nil {
 		log.Warn("there is no database")
